@@ -441,7 +441,7 @@ pub fn run(ctx: &Ctx) -> Outcome {
         with_target(c.w, c.h, |dt| run_one(c, want, st, dt))
     });
 
-    let n = ctx.n(60_000, 6_000_000);
+    let n = ctx.n(400_000, 6_000_000);
     run_cases(ctx, &mut out, SubSpec { name: "random", cases: n, exhaustive: false, max_secs: if ctx.quick() { 40. } else { 600. } }, |i, want, st| {
         let mut rng = ctx.rng("random", i);
         let c = gen_case(&mut rng);
